@@ -45,7 +45,7 @@ def showOut : Out → Option String
 
 def showSent : Out → Option String
   | .sentGet k => some s!"get#{k}"
-  | .sentResult id => some s!"result={id}"
+  | .sentResult id to => some s!"result={id}>{to}"
   | .sentError id => some s!"error={id}"
   | _ => none
 
